@@ -356,7 +356,7 @@ Proof. unfold updcs, with_cs. rewrite upd_id. destruct h; reflexivity. Qed.
 Lemma updcs_updcs c f g h : updcs c f (updcs c g h) = updcs c (fun s => f (g s)) h.
 Proof. unfold updcs, with_cs. simpl. rewrite upd_upd. reflexivity. Qed.
 
-Lemma try_unchoke_new_inv d v c h h' : v_dir v = d -> InvL d h -> try_unchoke_new v c h = Ok h' -> InvL d h'.
+Lemma try_unchoke_new_inv d v hold c h h' : v_dir v = d -> InvL d h -> try_unchoke_new v hold c h = Ok h' -> InvL d h'.
 Proof. intros Hd I. unfold try_unchoke_new. destruct (_ && _); [|intros H; injection H as <-; auto].
   destruct (slot v c false h) as [[h1 r]|] eqn:S; [|discriminate]. simpl. intros H.
   eapply inv_recv; [|exact H]. eapply slot_inv; eauto. Qed.
